@@ -12,6 +12,10 @@ for d in sorted(glob.glob(os.path.join(V, "seeded", "*"))):
     mp = os.path.join(d, "meta.json")
     m = json.load(open(mp))
     pid = m["property"]
+    fe = m.get("final_evaluation") or {}
+    if fe.get("note", "").startswith(("neutralised", "superseded")) or fe.get("in_scope") is False:
+        print(name, "kept manual verdict:", (fe.get("note") or fe.get("why"))[:80], flush=True)
+        continue
     out = subprocess.run(["python3", os.path.join(V, "lib", "seedeval.py"), pid, d, "--skip-confirm"], capture_output=True, text=True).stdout
     try:
         r = json.loads(out.strip().splitlines()[-1])
